@@ -41,25 +41,29 @@ def decide(prop: str, tier: str, seed: int) -> int:
             broken.append({'kind': 'regen', 'name': 'regen',
                            'detail': f'{type(e).__name__}: {e}'})
 
-    # 2. build the property module
+    # 2. build the property module(s)
     prop_module = f'PanqecVerif.Properties.{prop}'
-    prop_file = core.LEAN_DIR / 'PanqecVerif' / 'Properties' / f'{prop}.lean'
+    prop_modules = list(getattr(mod, 'PROPERTY_MODULES', [prop_module]))
+    prop_files = [core.LEAN_DIR / (m.replace('.', '/') + '.lean') for m in prop_modules]
     if os.environ.get('VERIF_DEV_NOLEAN'):   # development only: skip the proof side
         ok, log = core.lake_build(['panqec_model'])
-        prop_file = Path('/nonexistent')
+        prop_files = []
     else:
-        ok, log = core.lake_build([prop_module, 'panqec_model'])
-    names = core.theorem_names(prop_file) if prop_file.exists() else []
+        ok, log = core.lake_build(prop_modules + ['panqec_model'])
+    names = []
+    for pf in prop_files:
+        if pf.exists():
+            names += core.theorem_names(pf)
     discharged = 0
     axioms_used = {}
     if not ok:
-        broken.append({'kind': 'build', 'name': prop_module,
+        broken.append({'kind': 'build', 'name': ' '.join(prop_modules),
                        'detail': summarise_build_errors(log)})
         if not core.DRIVER.exists():
             raise ToolFailure('driver not built:\n' + log[-2000:])
     else:
         # 3. audit
-        ax = core.audit_axioms(prop_module, names)
+        ax = core.audit_axioms(prop_modules, names)
         if ax.get('_raw_rc', 0) != 0:
             broken.append({'kind': 'audit', 'name': prop_module, 'detail': ax.get('_raw', '')[-1500:]})
         for n in names:
@@ -72,12 +76,12 @@ def decide(prop: str, tier: str, seed: int) -> int:
                 broken.append({'kind': 'audit', 'name': n, 'detail': f'axioms {sorted(extra)}'})
             else:
                 discharged += 1
-        srcs = core.lean_sources_of([prop_module])
+        srcs = core.lean_sources_of(prop_modules)
         hits = core.grep_forbidden(srcs)
         if hits:
             broken.append({'kind': 'audit', 'name': 'forbidden-constructs', 'detail': hits[:10]})
         if tier == 'thorough' and getattr(mod, 'LEANCHECKER', True):
-            mods = [m for m in getattr(mod, 'LEANCHECKER_MODULES', [prop_module])]
+            mods = [m for m in getattr(mod, 'LEANCHECKER_MODULES', prop_modules)]
             rc, out, err = core.run(['lake', 'env', 'leanchecker'] + mods, cwd=core.LEAN_DIR,
                                     timeout=3000)
             if rc != 0:
@@ -165,7 +169,7 @@ def decide(prop: str, tier: str, seed: int) -> int:
     cov = {
         'obligations': max(len(names), 1),
         'discharged': discharged,
-        'checker_cmd': f'cd lean && lake build {prop_module} && lake env lean <#print axioms of each theorem>'
+        'checker_cmd': f'cd lean && lake build {" ".join(prop_modules)} && lake env lean <#print axioms of each theorem>'
                        + (' && lake env leanchecker' if tier == 'thorough' else ''),
         'trusted_base': core.GLOBAL_TRUSTED_BASE + list(getattr(mod, 'TRUSTED', [])),
         'theorems': names,
